@@ -95,7 +95,7 @@ def gen_obj(rng, kind, name, doc_style, annotated, n_params, defaults, ret, clas
         if not params:
             lines.append("        pass")
     feat = dict(kind=kind, obj=name, doc_style=doc_style, annotated=annotated, params=params, ret=bool(ret),
-                class_doc=bool(class_doc))
+                class_doc=bool(class_doc), ndef=ndef)
     return lines, feat
 
 
@@ -612,8 +612,7 @@ def _observe_in(case, ws):
             elif t == "call-emit":
                 events.append([Sym("call-emit"), r[1], enc_kwargs(r[2])])
             elif t == "emit-raised":
-                if case["type_"] != "function":   # for "function" the model itself must predict the TypeError
-                    entry_res[cur] = [Sym("emit-raises"), Sym(r[1])]
+                entry_res[cur] = [Sym("emit-raises"), Sym(r[1])]
             elif t == "emitted":
                 entry_res[cur] = [Sym("emitted"), r[1]]
             elif t == "parse-src":
@@ -669,7 +668,6 @@ def _observe_in(case, ws):
         res["response"] = dumps([Sym("gen"), events, ok, opt(file_after)])
         res["exc"], res["file_after"], res["written"], res["content"] = exc, file_after, written, content
         res["entry_res"] = entries_in
-        res["n_file_imports"] = None
         res["hoisted"], res["all_names"] = hoisted, all_names
     finally:
         gen_mod.__dict__.clear()
